@@ -77,6 +77,18 @@ def c10_build(valid, unit, v, r, new_id):
     return c.line(new_id)
 
 
+def c10_plan_request(valid, unit, v, r):
+    """model-driver request for the SPEC's faulty script of this (base, unit, vector, r): entry `theshipplan`
+    (Run/TheShipFaults.lean) rebuilds the base from its seed (`ts<seed>_<k>`), reads the vector as a plan of
+    Spec/ValveFaults.lean on TheShip.Spec.shipConfig and prints the case line built by Spec.faultyScript / faultyFaults
+    with WANT = faultyExpected >>= TheShip.convert, SENT = faultySends, THM = the hypotheses of C10_theship_query_faulty"""
+    import re
+    m = re.fullmatch(r"ts(\d+)_(\d+)", valid.id)
+    if not m:
+        return None
+    return f"theshipplan {m.group(1)} {m.group(2)} {r} {unit} {v}"
+
+
 def c10_attempts(valid, unit, sends, clean):
     ch = [int(x) for x in valid.tags["CH"].split(",")]
     kind_sends = sum(1 for (_, _, data, _) in sends if data[8:10] == ("54", "55", "56")[unit % 3])
